@@ -23,6 +23,9 @@ VERIF = os.path.dirname(os.path.dirname(os.path.abspath(__file__)))
 
 def _warm() -> None:
     import threading
+    import warnings
+    warnings.filterwarnings('ignore', category=RuntimeWarning,
+                            message='coroutine .* was never awaited')
     threading.stack_size(512 * 1024)
     import bqskit  # noqa
     import bqskit.compiler.compiler  # noqa
